@@ -31,7 +31,7 @@ import sys
 import time
 import traceback
 from collections import Counter
-from typing import Any, Callable, Dict, Iterable, List, Optional
+from typing import Any, Callable, Dict, Iterable, List, Optional, Tuple
 
 VERIF = os.path.dirname(os.path.dirname(os.path.abspath(__file__)))
 REPO = os.environ.get("VF_REPO", "/repo")
@@ -144,6 +144,7 @@ class Ctx:
         self.t0 = time.time()
         self.deadline: Optional[float] = None
         self.parts: Dict[str, dict] = {}
+        self.viol_origin: Dict[str, Tuple[Any, Any]] = {}   # finding key -> (chunk function, chunk) that produced the kept case
 
     # ------------------------------------------------------------------ bookkeeping
     def violation(self, key: str, what: str, case: Any, detail: str = "") -> None:
@@ -156,7 +157,7 @@ class Ctx:
         ):
             self.viol[key] = v
 
-    def merge(self, part: Optional[dict], label: Optional[str] = None) -> None:
+    def merge(self, part: Optional[dict], label: Optional[str] = None, origin: Optional[Tuple[Any, Any]] = None) -> None:
         if not part:
             return
         self.n += int(part.get("n", 0))
@@ -176,7 +177,10 @@ class Ctx:
         if part.get("capped"):
             self.capped.append(str(part["capped"]))
         for v in part.get("violations", ()) or ():
+            before = self.viol.get(v["key"])
             self.violation(v["key"], v["what"], v["case"], v.get("detail", ""))
+            if origin is not None and self.viol.get(v["key"]) is not before:
+                self.viol_origin[v["key"]] = origin
             # violation() counted 1; add the remainder if the worker aggregated
             extra = int(v.get("count", 1)) - 1
             if extra > 0:
@@ -194,19 +198,54 @@ class Ctx:
         w = min(workers or self.workers, len(chunks))
         if w <= 1:
             for c in chunks:
-                self.merge(fn(c), label)
+                self.merge(fn(c), label, origin=(fn, c))
             return
         import multiprocessing as mp
 
+        # one fresh forked worker per chunk: a chunk's result is a function of (this process's state, the chunk) only, so a
+        # violation that depends on earlier calls inside the chunk can be reproduced by re-running the chunk in a fresh fork
         ctx = mp.get_context("fork")
-        with ctx.Pool(w, maxtasksperchild=maxtasksperchild) as pool:
-            for part in pool.imap_unordered(fn, chunks):
-                self.merge(part, label)
+        with ctx.Pool(w, maxtasksperchild=1 if maxtasksperchild is None else maxtasksperchild) as pool:
+            for i, part in pool.imap_unordered(_indexed_call, [(fn, i, c) for i, c in enumerate(chunks)]):
+                self.merge(part, label, origin=(fn, chunks[i]))
 
     def time_left(self) -> float:
         if self.deadline is None:
             return 1e9
         return self.deadline - time.time()
+
+
+def _indexed_call(arg):
+    fn, i, chunk = arg
+    return i, fn(chunk)
+
+
+_FORK_FN: Optional[Callable] = None
+
+
+def _fork_call(arg):
+    return _FORK_FN(arg)
+
+
+def _fork_map(fn: Callable, items: List[Any], workers: int) -> List[Any]:
+    """fn(item) for every item, each call in its own freshly forked child of this process (results in order)."""
+    global _FORK_FN
+    import multiprocessing as mp
+
+    if not items:
+        return []
+    _FORK_FN = fn   # inherited by the forked workers (fn may be a closure, which cannot be pickled)
+    try:
+        with mp.get_context("fork").Pool(max(1, min(workers, len(items))), maxtasksperchild=1) as pool:
+            return list(pool.imap(_fork_call, items, 1))
+    finally:
+        _FORK_FN = None
+
+
+def run_in_fresh_fork(fn: Callable, chunk: Any) -> Any:
+    from vf.explore import in_child
+
+    return in_child(lambda: fn(chunk))
 
 
 def load_known() -> List[dict]:
@@ -277,19 +316,61 @@ def run_check(prop: str, tier: str, seed: int, workers: int) -> int:
     known_keys = {k["key"]: k for k in known}
     new_viol, known_hit = [], []
     nondeterministic = []
-    for key in sorted(ctx.viol):
-        v = ctx.viol[key]
-        # confirm by re-executing the recorded case without the explorer
+    # (1) confirm every violation by re-executing its recorded case without the explorer, each in a fresh fork so that one replay
+    #     cannot disturb the next through process-global state of the library
+    def _iso(case):
         try:
-            again = mod.replay(v["case"])
-            keys_again = {a["key"] for a in again}
+            return ("ok", [a["key"] for a in mod.replay(case)])
         except BaseException:
-            keys_again = set()
-            v["detail"] += "\nREPLAY CRASHED:\n" + traceback.format_exc()[-1500:]
-        if key not in keys_again:
+            return ("crash", traceback.format_exc()[-1500:])
+
+    keys = sorted(ctx.viol)
+    iso = _fork_map(_iso, [ctx.viol[k]["case"] for k in keys], ctx.workers)
+    pending = []
+    confirmed = set()
+    for key, res in zip(keys, iso):
+        v = ctx.viol[key]
+        if res[0] == "ok" and key in res[1]:
+            confirmed.add(key)
+        else:
+            if res[0] != "ok":
+                v["detail"] += "\nREPLAY CRASHED:\n" + str(res[1])
+            pending.append(key)
+    # (2) not reproducible in isolation: does it reproduce when the chunk of cases it came from is re-run in a fresh fork? Then the
+    #     behaviour depends on earlier calls in the same process (e.g. a cache keyed too coarsely) and the chunk is the replay
+    if pending:
+        origins = {}
+        for key in pending:
+            o = ctx.viol_origin.get(key)
+            if o is not None:
+                origins.setdefault(id(o[1]), (o, []))[1].append(key)
+        olist = list(origins.values())
+
+        def _ctx(o):
+            try:
+                part = o[0][0](o[0][1])
+                return ("ok", [a["key"] for a in (part.get("violations") or ())])
+            except BaseException:
+                return ("crash", traceback.format_exc()[-1000:])
+
+        for (o, ks), res in zip(olist, _fork_map(_ctx, olist, ctx.workers)):
+            for key in ks:
+                v = ctx.viol[key]
+                if res[0] == "ok" and key in res[1]:
+                    import base64
+                    import pickle
+
+                    v["what"] += " [depends on earlier calls in the same process: reproduces only when the recorded sequence of cases is re-run]"
+                    v["context"] = {"fn": f"{o[0].__module__}:{o[0].__qualname__}", "chunk_pickle_b64": base64.b64encode(pickle.dumps(o[1])).decode(),
+                                    "chunk_preview": repr(o[1])[:1500]}
+                    confirmed.add(key)
+                elif res[0] != "ok":
+                    v["detail"] += "\nRE-RUN OF THE ORIGINATING CHUNK CRASHED:\n" + str(res[1])
+    for key in keys:
+        v = ctx.viol[key]
+        if key not in confirmed:
             nondeterministic.append(v)
-            continue
-        if key in known_keys:
+        elif key in known_keys:
             known_hit.append(v)
         else:
             new_viol.append(v)
@@ -303,17 +384,19 @@ def run_check(prop: str, tier: str, seed: int, workers: int) -> int:
         path = os.path.join(REPLAY_DIR, f"{prop}-{h}.json")
         with open(path, "w") as fp:
             json.dump({"property": prop, "key": v["key"], "what": v["what"], "case": v["case"], "detail": v["detail"],
-                       "occurrences": ctx.viol_count[v["key"]]}, fp, indent=1, sort_keys=True)
+                       "occurrences": ctx.viol_count[v["key"]], **({"context": v["context"]} if "context" in v else {})}, fp, indent=1, sort_keys=True)
             fp.write("\n")
         print(f"VIOLATION property={prop} replay={path}")
         print(f"  key={v['key']}\n  what={v['what']}\n  occurrences={ctx.viol_count[v['key']]}")
         rc = 1
     for v in nondeterministic:
         print(f"HARNESS-NONDETERMINISM: property={prop} key={v['key']} did not reproduce from its recorded case: {json.dumps(v['case'])[:300]}")
-        rc = max(rc, 2)
+        if rc == 0:
+            rc = 2   # nothing confirmed: the harness is at fault; with a confirmed, replayable violation the verdict stays VIOLATION (exit 1)
     if harness_error:
         print("HARNESS-ERROR:\n" + harness_error)
-        rc = max(rc, 2)
+        if rc == 0:
+            rc = 2
     path = write_evidence(ctx, len(new_viol), len(known_hit))
     dt = time.time() - ctx.t0
     print(f"{prop} tier={tier} seed={seed}: evaluations={ctx.n} distinct_nontrivial={len(ctx.nontrivial) + ctx.nontrivial_extra} "
@@ -328,7 +411,16 @@ def replay_file(path: str) -> int:
         rec = json.load(fp)
     prop = rec["property"]
     mod = importlib.import_module(f"vf.checks.{prop.lower()}")
-    res = mod.replay(rec["case"])
+    if "context" in rec:
+        import base64
+        import pickle
+
+        modname, qual = rec["context"]["fn"].split(":")
+        fn = getattr(importlib.import_module(modname), qual)
+        part = run_in_fresh_fork(fn, pickle.loads(base64.b64decode(rec["context"]["chunk_pickle_b64"])))
+        res = list(part.get("violations") or ())
+    else:
+        res = mod.replay(rec["case"])
     print(f"replaying {path}: property={prop} key={rec['key']}")
     print(f"case: {json.dumps(rec['case'])[:1500]}")
     hit = False
